@@ -477,9 +477,13 @@ func InitialContextSetupRequest(amfID, ranID int64, a AmfIdentity, kgnb []byte, 
 		ies.List = append(ies.List, ie)
 	}
 	add(ngapType.ProtocolIEIDAMFUENGAPID, ngapType.CriticalityPresentReject, ngapType.InitialContextSetupRequestIEsPresentAMFUENGAPID,
-		func(v *ngapType.InitialContextSetupRequestIEsValue) { v.AMFUENGAPID = &ngapType.AMFUENGAPID{Value: amfID} })
+		func(v *ngapType.InitialContextSetupRequestIEsValue) {
+			v.AMFUENGAPID = &ngapType.AMFUENGAPID{Value: amfID}
+		})
 	add(ngapType.ProtocolIEIDRANUENGAPID, ngapType.CriticalityPresentReject, ngapType.InitialContextSetupRequestIEsPresentRANUENGAPID,
-		func(v *ngapType.InitialContextSetupRequestIEsValue) { v.RANUENGAPID = &ngapType.RANUENGAPID{Value: ranID} })
+		func(v *ngapType.InitialContextSetupRequestIEsValue) {
+			v.RANUENGAPID = &ngapType.RANUENGAPID{Value: ranID}
+		})
 	add(ngapType.ProtocolIEIDGUAMI, ngapType.CriticalityPresentReject, ngapType.InitialContextSetupRequestIEsPresentGUAMI,
 		func(v *ngapType.InitialContextSetupRequestIEsValue) { g := a.guami(); v.GUAMI = &g })
 	add(ngapType.ProtocolIEIDAllowedNSSAI, ngapType.CriticalityPresentReject, ngapType.InitialContextSetupRequestIEsPresentAllowedNSSAI,
